@@ -64,6 +64,7 @@ func __called(name string) bool { return true }
 func __lastret(name string, i int) any { return nil }
 func __arg(i int) any { return nil }
 func __owned(x any) bool { return true }
+func __sameref(a, b any) bool { return true }
 func __samebytes(a, b []byte) bool { return true }
 func __argT[T any](i int) T { var z T; return z }
 func __lastretT[T any](name string, i int) T { var z T; return z }
